@@ -11,7 +11,7 @@ import (
 
 var voteVariants = []string{"flip", "wrongkey", "crosskind", "otherround", "othertarget", "zerosig", "emptysig", "idrange", "idN", "idmax", "idlen0", "idlen1", "idlen3", "badpkh", "oldset", "mix", "dupid", "emptymap"}
 var phVariants = []string{"forgedNext", "forgedCur", "badhash", "nonval", "badsig", "nokey", "badpcp", "shortpcp", "foreignpcp", "duppcp", "emptypcp", "pcpidN", "pcpidlen1"}
-var replayVariants = []string{"ok", "lowpower", "byzonly", "nextround", "prevH", "nextH", "badhash", "badprev", "foreign", "blockB"}
+var replayVariants = []string{"ok", "lowpower", "byzonly", "nextround", "prevH", "nextH", "badhash", "badprev", "foreign", "blockB", "nosigs", "pvsigs"}
 
 // alphabet lists the environment events. "full" is used for single deviations, "core" where the space is squared or cubed.
 func alphabet(level string) []string {
@@ -78,7 +78,7 @@ func alphabet(level string) []string {
 		}
 	}
 	for _, v := range replayVariants {
-		if level == "core" && !(v == "ok" || v == "foreign" || v == "lowpower") {
+		if level == "core" && !(v == "ok" || v == "foreign" || v == "lowpower" || v == "nosigs") {
 			continue
 		}
 		add("RP:" + v)
@@ -260,6 +260,9 @@ func exploreBFS(c *vx.Ctx, props string, seeds []int, depth int, alpha []string,
 	// Seeds that the script never passes through: split votes (a vote majority present without consensus).
 	if withSplitSeeds {
 		frontier = append(frontier, node{7, []string{"V:c:3:nil"}}, node{4, []string{"V:p:3:nil"}})
+		// ... and: split precommits (the state machine's precommit-delay timer runs), the state machine not reading,
+		// the network already voting in the next round (the mirror jumps, a jump-ahead signal is pending).
+		frontier = append(frontier, node{7, []string{"V:c:3:nil", "StallS", "V:p:h:A@0,1"}})
 	}
 	levelDone := -1
 	for d := 0; d <= depth && len(frontier) > 0; d++ {
